@@ -79,6 +79,7 @@ impl<'a> Ctx<'a> {
   fn tyterm(&self, t: &Ty) -> R<String> {
     ty_term(t, &self.cty_names())
   }
+  pub fn syn_ty_pub(&self, t: &syn::Type) -> R<Ty> { self.syn_ty(t) }
   fn syn_ty(&self, t: &syn::Type) -> R<Ty> {
     let mut g = self.gnames();
     if self.self_ty.is_some() {
@@ -654,6 +655,7 @@ impl<'a> Ctx<'a> {
       }
       "transmute" => {
         // transmute!(val)  |  transmute!(Src; Dst; val)
+        if !self.callees.iter().any(|c| c == "Root::transmute!") { self.callees.push("Root::transmute!".into()); }
         let toks = mac.tokens.to_string();
         if toks.contains(';') {
           let parts = split_semis(mac.tokens.clone());
@@ -792,6 +794,7 @@ impl<'a> Ctx<'a> {
         return Ok(Tr { code, ty, pure });
       }
       (_, "something_went_wrong") if args.len() == 2 => {
+        if !self.callees.iter().any(|c| c == "Internal::something_went_wrong") { self.callees.push("Internal::something_went_wrong".into()); }
         let f = self.expr(args[0], None)?;
         let e = self.expr(args[1], None)?;
         let ety = e.ty.clone();
